@@ -91,6 +91,10 @@ fn check_pair(ctx: &Ctx, a: &Universal2DBox, b: &Universal2DBox, deep: bool) {
                 // noise-level positive value is accepted either way (policy: decisions only by margin);
                 // anything larger is already reported by the area comparison above
                 if ref_i == 0.0 && geom::inter_area(&grow(&ra, 1e-6), &grow(&rb, 1e-6)) == 0.0 {
+                    // disjoint by a margin (the boxes grown by 1e-6 still have nothing in common): "absent exactly when
+                    // the boxes do not overlap" - a value, even 0, is not absent
+                    viol("iou/present-but-disjoint", format!("IoU({name}) = {x:e} for boxes that have nothing in common (also when grown by 1e-6)"));
+                } else if ref_i == 0.0 {
                     ctx.undecided.fetch_add(1, Ordering::Relaxed);
                 }
                 if !(x >= 0.0 && x <= 1.0 + 1e-6) || !x.is_finite() {
